@@ -551,6 +551,102 @@ pub fn run(run: &Run) {
     });
 
     // ---- D. last-error belongs to the calling thread, is replaced and cleared
+    // ---- the per-field JSON setter against the Rust API on the same text: near-valid
+    // scalars (signs, leading zeros, exponents, case variants, surrounding whitespace,
+    // non-ASCII digits), alternative encodings and wrong shapes, for every field type.
+    // Same accept/reject, same stored value, a last-error message on every refusal.
+    const JSON_TEXTS: &[&str] = &[
+        "5", "-5", "+5", "+0", "-0", "0", "00", "007", "-01", "+007", " 5", "5 ", "\t5\n", "5x", "5,", "1e3", "1E3", "1e0", "1.0",
+        "1.5", ".5", "5.", "0x10", "0b1", "1_000", "9223372036854775807", "9223372036854775808", "-9223372036854775808",
+        "-9223372036854775809", "true", "false", "True", "TRUE", "FALSE", " true", "true ", "tru", "truee", "t", "1", "yes", "null",
+        "\"5\"", "\"true\"", "\"1.2.3.4\"", "\"::1\"", "\"1.2.3.4 \"", "\" 1.2.3.4\"", "\"01.2.3.4\"", "\"1.2.3\"",
+        "\"::ffff:1.2.3.4\"", "\"1.2.3.4/32\"", "1.2.3.4", "\"abc\"", "\"a\\u0000b\"", "\"\\ud800\"", "\"\u{e9}\"", "abc", "'abc'",
+        "[97,98]", "[256]", "[-1]", "[1.0]", "[+1]", "[01]", "[]", "{}", "[[\"k\",1]]", "[[\"k\",+1]]", "{\"k\":1}", "{\"k\":01}",
+        "{\"k\":1,\"k\":2}", "[1,2,]", "[1 2]", "[true,false]", "[True]", "[[true],[false,true]]", "{\"a\":[1],\"b\":[]}",
+        "\u{665}", "\u{ff15}", "", " ", "\u{feff}5", "5\u{0}", "--5", "+-5", "+", "-",
+    ];
+    let fields_n = worlds[0].env.fields.len() as u64;
+    let total = fields_n * JSON_TEXTS.len() as u64;
+    run.exhaustive("json-value-mirror", true);
+    run.parallel("json-value-mirror", total + run.opts.size(20_000, 600_000), |i, l| {
+        l.evals += 1;
+        let w = &worlds[0];
+        let scheme: &wirefilter::Scheme = &w.scheme;
+        let mut r = Rng::derive(seed, "c20-jv", i);
+        let (f, text): (&crate::ast::FieldDesc, String) = if i < total {
+            (&w.env.fields[(i / JSON_TEXTS.len() as u64) as usize], JSON_TEXTS[(i % JSON_TEXTS.len() as u64) as usize].to_string())
+        } else {
+            // a valid document of the field's type with one character inserted / deleted / replaced
+            let f = &w.env.fields[r.below(w.env.fields.len())];
+            let mut chars: Vec<char> = serde_json::to_string(&gen_value(&mut r, &f.ty).to_json()).unwrap().chars().collect();
+            let pos = r.below(chars.len() + 1);
+            let ins = ['+', '-', '0', ' ', '.', 'e', '"', ',', '1', 'T', '\u{665}'][r.below(11)];
+            match r.below(3) {
+                0 => chars.insert(pos, ins),
+                1 if pos < chars.len() => {
+                    chars.remove(pos);
+                }
+                _ if pos < chars.len() => chars[pos] = ins,
+                _ => chars.push(ins),
+            }
+            (f, chars.into_iter().collect())
+        };
+        let ty = f.ty.to_engine();
+        // Rust API
+        let rust: Result<Result<Option<RV>, String>, String> = guard(|| {
+            match ty.deserialize_value(&mut serde_json::Deserializer::from_slice(text.as_bytes())) {
+                Ok(v) => {
+                    let mut ctx = wirefilter::ExecutionContext::<()>::new(scheme);
+                    ctx.set_field_value_from_name(&f.name, v.into_owned()).map_err(|e| e.to_string())?;
+                    let field = scheme.get_field(&f.name).unwrap();
+                    Ok(ctx.get_field_value(field).map(|v| RV::from_lhs(v).expect("deep type")))
+                }
+                Err(e) => Err(e.to_string()),
+            }
+        });
+        // C API (the buffer is lent for the call only)
+        let mut ctx = ffi::wirefilter_create_execution_context(&w.scheme);
+        ffi::wirefilter_clear_last_error();
+        let c = guard(|| {
+            let mut buf = text.as_bytes().to_vec();
+            let ok = ffi::wirefilter_add_json_value_to_execution_context(&mut ctx, f.name.as_ptr() as *const _, f.name.len(), buf.as_ptr(), buf.len());
+            for b in buf.iter_mut() {
+                *b = b'#';
+            }
+            drop(buf);
+            ok
+        });
+        let detail = |extra: serde_json::Value| json!({"field": f.name, "field_type": f.ty.short(), "json_text": text, "more": extra});
+        match (&rust, &c) {
+            (Ok(Ok(rv)), Ok(true)) => {
+                let field = scheme.get_field(&f.name).unwrap();
+                let got = ctx.get_field_value(field).map(|v| RV::from_lhs(v));
+                let same = match (&got, rv) {
+                    (Some(Ok(a)), Some(b)) => a == b,
+                    (None, None) => true,
+                    _ => false,
+                };
+                if !same {
+                    run.violation("C20/json-value/stored-value-differs", "mirror", "json-value-mirror", i, detail(json!({"c": format!("{:?}", got), "rust": format!("{:?}", rv)})));
+                }
+                expect_error(run, "json-value-mirror", i, "add_json_value", None, detail(json!(null)));
+                l.count("json_value_accepted_by_both");
+            }
+            (Ok(Err(_)), Ok(false)) => {
+                expect_error(run, "json-value-mirror", i, "add_json_value", Some(""), detail(json!(null)));
+                l.count("json_value_refused_by_both");
+            }
+            (Ok(Ok(_)), Ok(false)) => run.violation("C20/json-value/c-refuses-what-rust-accepts", "mirror", "json-value-mirror", i, detail(json!({"last_error": last_error()}))),
+            (Ok(Err(e)), Ok(true)) => run.violation("C20/json-value/c-accepts-what-rust-refuses", "mirror", "json-value-mirror", i, detail(json!({"rust_error": e}))),
+            (Err(p), _) | (_, Err(p)) => run.violation(&format!("C20/json-value/panic/{}", first_line(p)), "no-panic", "json-value-mirror", i, detail(json!({"panic": p}))),
+        }
+        ffi::wirefilter_free_execution_context(ctx);
+        run.distinct(hash_str(&format!("{}|{}", f.name, text)));
+        if i % 997 == 0 {
+            run.sample("json-value-mirror", 4, || json!({"field_type": f.ty.short(), "json_text": text}));
+        }
+    });
+
     let n = run.opts.size(1_500, 30_000);
     run.parallel("last-error", n, |i, l| {
         let w = &worlds[0];
